@@ -496,6 +496,11 @@ func (g *Gen) loopHead(b *ssa.BasicBlock, li *loopInfo, st *State, rname string,
 			}
 		}
 		switch {
+		case v.MapCells:
+			dk, vk, lk := g.mapHeapKinds(v.GoT.Underlying().(*types.Map))
+			for _, k := range []string{dk, vk, lk} {
+				add(k, v.Addr)
+			}
 		case v.Root:
 			if li.sRoots == nil {
 				li.sRoots = map[string][]string{}
@@ -939,6 +944,25 @@ func (g *Gen) modItem(ci *callInfo, m *Expr, vars map[string]Val, st *State, eva
 	if !ok || !v.isLv() {
 		panic(fmt.Errorf("modifies item %s of %s is not an lvalue", m, ci.key))
 	}
+	if v.MapCells {
+		dk, vk, lk := g.mapHeapKinds(v.GoT.Underlying().(*types.Map))
+		for _, k := range []string{dk, vk, lk} {
+			kinds = append(kinds, k)
+			if evaluable {
+				locs = append(locs, v.Addr)
+			} else {
+				locs = append(locs, "")
+			}
+		}
+		return
+	}
+	if v.Root {
+		g.cellKinds(v.GoT, func(k string) {
+			kinds = append(kinds, k)
+			locs = append(locs, "")
+		})
+		return
+	}
 	if v.Win != nil {
 		if evaluable {
 			return []string{"bytes"}, []string{""}, v.Win
@@ -1136,11 +1160,23 @@ func (g *Gen) frameCheck(st *State, env *Env) {
 	}
 	oldEnv := g.envFor(g.penv, g.old, g.old)
 	modLocs := map[string][]string{}
+	modRoots := map[string][]string{}
 	var wins []window
 	for _, m := range g.con.Modifies {
 		v := oldEnv.tr(m)
 		if !v.isLv() {
 			panic(fmt.Errorf("modifies item %s is not an lvalue", m))
+		}
+		if v.MapCells {
+			dk, vk, lk := g.mapHeapKinds(v.GoT.Underlying().(*types.Map))
+			for _, k := range []string{dk, vk, lk} {
+				modLocs[k] = append(modLocs[k], v.Addr)
+			}
+			continue
+		}
+		if v.Root {
+			g.cellKinds(v.GoT, func(k string) { modRoots[k] = append(modRoots[k], v.Addr) })
+			continue
 		}
 		if v.Win != nil {
 			wins = append(wins, *v.Win)
@@ -1167,6 +1203,9 @@ func (g *Gen) frameCheck(st *State, env *Env) {
 		conds := []string{"(< (l_obj " + sk + ") A0)", "(not (= (l_obj " + sk + ") 0))"}
 		for _, l := range modLocs[k] {
 			conds = append(conds, "(not (= "+sk+" "+l+"))")
+		}
+		for _, l := range modRoots[k] {
+			conds = append(conds, "(not (= (l_obj "+sk+") (l_obj "+l+")))")
 		}
 		if k == "bytes" {
 			for _, w := range wins {
